@@ -17,7 +17,7 @@ use std::sync::{atomic::{AtomicI32, Ordering::SeqCst}, Arc, Mutex};
 pub enum Step { Clone(u8), Drop(u8), Deref(u8), Bulk(u8, u8), SendTo(u8, u8), Refs(u8), TakeMail }
 
 #[derive(Clone, Copy, Debug, PartialEq, Eq)]
-pub enum Creation { New, NewWith, NewWithClones2, NewWithClones3, UniqueIntoArc, UniqueDropped, FromAllocated }
+pub enum Creation { New, NewWith, NewWithClones2, NewWithClones3, UniqueIntoArc, UniqueDropped, FromAllocated, UniqueFromTrait, UniqueFromAllocatedId, UniqueFromAllocatedRef, FromAllocatedWithClones2 }
 
 #[derive(Clone, Debug)]
 pub struct Cfg { pub ring: &'static str, pub creations: Vec<Creation>, pub scripts: Vec<Vec<Step>>, pub keep_one: bool, pub origin: Option<u32> }
@@ -34,7 +34,8 @@ pub fn draw_cfg(rng: &mut Rng, only: Option<&str>) -> Cfg {
     let rings: Vec<&'static str> = ["atomic", "full_sync"].into_iter().filter(|r| only.map(|o| o == *r).unwrap_or(true)).collect();
     let ring = *rng.pick(&rings);
     let nvals = 1 + rng.below(2) as usize;
-    let all = [Creation::New, Creation::NewWith, Creation::NewWithClones2, Creation::NewWithClones3, Creation::UniqueIntoArc, Creation::UniqueDropped, Creation::FromAllocated];
+    let all = [Creation::New, Creation::NewWith, Creation::NewWithClones2, Creation::NewWithClones3, Creation::UniqueIntoArc, Creation::UniqueDropped, Creation::FromAllocated,
+               Creation::UniqueFromTrait, Creation::UniqueFromAllocatedId, Creation::UniqueFromAllocatedRef, Creation::FromAllocatedWithClones2];
     let creations: Vec<Creation> = (0..nvals).map(|_| *rng.pick(&all)).collect();
     let nthreads = 2 + rng.below(2) as usize;
     let mut scripts = Vec::new();
@@ -103,6 +104,12 @@ fn run_generic<A: BoundedOgreAllocator<DTok> + Send + Sync + 'static>(cfg: &Cfg,
                 if tracker().drops_of(id) != 1 { sh.problem("unique_drop", format!("dropping the unique handle destroyed value {id} {} times", tracker().drops_of(id))) }
             }
             Creation::FromAllocated => { let (slot, sid) = al.alloc_ref().expect("alloc"); unsafe { std::ptr::write(slot, DTok::make(id)) }; handles.push(OgreArc::from_allocated(sid, al)) }
+            // the trait form of the unique -> shared conversion (`OgreArc::from(unique)` / `unique.into()`)
+            Creation::UniqueFromTrait => { let u = OgreUnique::new(|s| unsafe { std::ptr::write(s, DTok::make(id)) }, al).expect("alloc"); let a: OgreArc<DTok, A> = if id % 2 == 0 { OgreArc::from(u) } else { u.into() }; handles.push(a) }
+            // unique handles adopted from an already allocated slot (by id / by reference), then converted
+            Creation::UniqueFromAllocatedId => { let (slot, sid) = al.alloc_ref().expect("alloc"); unsafe { std::ptr::write(slot, DTok::make(id)) }; let u = OgreUnique::from_allocated_id(sid, al); if u.id() != id { sh.problem("deref", "unique handle (from_allocated_id) dereferences to another value".into()) } handles.push(u.into_ogre_arc()) }
+            Creation::UniqueFromAllocatedRef => { let (slot, _sid) = al.alloc_ref().expect("alloc"); unsafe { std::ptr::write(slot, DTok::make(id)) }; let u = OgreUnique::from_allocated_ref(&*slot, al); if u.id() != id { sh.problem("deref", "unique handle (from_allocated_ref) dereferences to another value".into()) } handles.push(u.into_ogre_arc()) }
+            Creation::FromAllocatedWithClones2 => { let (slot, sid) = al.alloc_ref().expect("alloc"); unsafe { std::ptr::write(slot, DTok::make(id)) }; handles.extend(OgreArc::from_allocated_with_clones::<2>(sid, al)) }
         }
         if tracker().drops_of(id) != 0 && *c != Creation::UniqueDropped { sh.problem("early_drop", format!("value {id} was destroyed during the creation / conversion of its handles")) }
         expected_alive.push(!handles.is_empty());
